@@ -352,11 +352,10 @@ impl<T> NCReadStream<T> {
         self.verif_yield(crate::verif::Site::NcEof);
         #[cfg(feature = "verif")]
         use crate::verif::HookedArc as Arc;
-        if !self.q.0.lock().unwrap().is_empty() {
-            false
-        } else {
-            Arc::strong_count(&self.q) == 1
-        }
+        // Liveness first, then emptiness: a writer that pushes its last packet
+        // and goes away between the two reads must not look like EOF.
+        let closed = Arc::strong_count(&self.q) == 1;
+        closed && self.q.0.lock().unwrap().is_empty()
     }
 }
 
